@@ -147,10 +147,12 @@ UNICODE = ["ascii", "format", "silent"]
 
 LONG = "L0ng " * 40
 # hostile strings; index order is part of the slice definitions and known-finding regions: append only.
+# the last two: the format's own header terminator and a whole header line inside user data
+HDR_END, HDR_LINE = "a-->b", "<!-- dmx encoding binary 9 format zz 3 -->\n"
 H_NAMES = ["", "a", "A", 'q"uote', "back\\slash", "bs\\n", "nl\nline", "t\tab", "{", "}", "[x]", "// c", "café 中", LONG,
-           "name", " lead"]
-H_TYPES = ["DmElement", "", 'T"q', "b\\", "bs\\t", "nl\nT", "{", "//", "café", LONG, "dmelement", "DMELEMENT"]
-H_ATTRS = ["a", "Val", 'q"', "b\\", "bs\\n", "nl\nA", "{", "//", "café", LONG, "id", "ID", "elementid", "x y", "", "]"]
+           "name", " lead", HDR_END, HDR_LINE]
+H_TYPES = ["DmElement", "", 'T"q', "b\\", "bs\\t", "nl\nT", "{", "//", "café", LONG, "dmelement", "DMELEMENT", HDR_END, HDR_LINE]
+H_ATTRS = ["a", "Val", 'q"', "b\\", "bs\\n", "nl\nA", "{", "//", "café", LONG, "id", "ID", "elementid", "x y", "", "]", HDR_END]
 H_TYPES_VT = ["int", "element", "string_array", "Element", "elementid", "binary"]       # element types that look like value types
 H_ATTRS_NAME = ["Name", "NAME"]                                                          # attribute keys that casefold to 'name'
 SLOTS = ["rootname", "name", "roottype", "type", "attr", "sval", "sarr", "attr_child", "type_vt", "attr_name"]
@@ -608,13 +610,20 @@ def _header_end(f):
     raise Fail("no header terminator")
 
 
+TICKS = [0, 1, -1, 15000, -10000, -605000, 2147483647, -2147483648, 5, -5]     # TIME values as 1/10000 s tick counts
+
+
 def h_values(iv: int, iw: int, bv: bool, r: int, g: int, b: int, a: int, blob: bytes, nblob: int, version: int, kind: str) -> None:
     """Binary export -> parse_bin with symbolic wire values, one kind per slice: int32 scalar and 2-array / bool scalar and
-    array / colour channels / blob bytes (scalar and array member).  Unused symbolic arguments are pinned."""
+    array / colour channels / blob bytes (scalar and array member) / TIME values by symbolic index over a table of tick counts
+    of both signs.  Unused symbolic arguments are pinned."""
     d = _dmx()
     _stub_structs()
     assume(len(blob) == nblob)
-    if kind != "int":
+    if kind == "time":
+        t1 = pick(TICKS, iv)
+        t2 = pick(TICKS, iw)
+    elif kind != "int":
         assume(iv == 0 and iw == 0)
     if kind != "bool":
         assume(not bv)
@@ -640,6 +649,9 @@ def h_values(iv: int, iw: int, bv: bool, r: int, g: int, b: int, a: int, blob: b
             object.__setattr__(col, nm, val)
         root["col"] = A("col", VT.COLOR, col)
         kid["cols"] = A("cols", VT.COLOR, [d.Color(1, 2, 3, 4), col])
+    elif kind == "time":
+        root["t"] = A("t", VT.TIME, d.Time(t1 / 10000.0))
+        kid["ts"] = A("ts", VT.TIME, [d.Time(t2 / 10000.0), d.Time(0.0), d.Time(t1 / 10000.0)])
     else:
         root["blob"] = A("blob", VT.BINARY, blob)
         kid["blobs"] = A("blobs", VT.BINARY, [b"\x00", blob, b""])
@@ -792,6 +804,7 @@ def obligations(tier):
     obls.append(Obl("types.witness", MOD, "h_types_witness", slices=[{}], budget_s=120, per_path_s=60, witness=True, desc="reachability twin"))
     vs = [{"version": v, "nblob": 0, "kind": k} for v in (1, 2, 3, 4, 5) for k in ("int", "bool", "color")]
     vs += [{"version": v, "nblob": n, "kind": "blob"} for v in ((2, 5) if quick else (1, 2, 3, 4, 5)) for n in ((1,) if quick else (1, 2))]
+    vs += [{"version": v, "nblob": 0, "kind": "time"} for v in (3, 4, 5)]
     obls.append(Obl("values.binary", MOD, "h_values", slices=vs, budget_s=900, per_path_s=300,
                     desc="binary export -> parse_bin with symbolic wire values, one kind per slice: int32 (scalar + array), bool (scalar + "
                          "array), 4 colour channels, blob bytes (scalar + array member): exact values, types and shapes",
